@@ -95,11 +95,18 @@ def strip_module_prefixes(text: str, modules: Iterable[str]) -> str:
 
     Only at the start of a name, so that stripping `utils.` leaves `myutils.X`
     alone, and the longest module first, so that stripping `pkg.` cannot turn
-    `pkg.sub.X` into `sub.X` before `pkg.sub.` is looked for.
+    `pkg.sub.X` into `sub.X` before `pkg.sub.` is looked for. Every name is
+    stripped of one prefix only, in a single pass: what is left of `bar.foo.X`
+    once `bar.` is gone is the class `foo`, whatever modules are called `foo`.
     """
-    for module in sorted(modules, key=len, reverse=True):
-        text = re.sub(r"(?<![\w.])" + re.escape(module + "."), "", text)
-    return text
+    prefixes = sorted({module + "." for module in modules}, key=len, reverse=True)
+    if not prefixes:
+        return text
+    return re.sub(
+        r"(?<![\w.])(?:" + "|".join(re.escape(prefix) for prefix in prefixes) + ")",
+        "",
+        text,
+    )
 
 
 class ImportMap(DefaultDict[Any, Any]):
